@@ -499,7 +499,31 @@ func valueTextC07(c *Ctx) {
 						c.OK("C07.valuetext", key, ret.Pos(), "FormatInt(v, 10)")
 					}
 				default:
-					c.Unk("C07.valuetext", key, ret.Pos(), "rendered by a function this rule has no exactness argument for")
+					viaRecv := false
+					for _, a := range x.Call.Args {
+						if recvOf(a) {
+							viaRecv = true
+						}
+						// a variadic call: the receiver stored into the argument slice
+						if sl, ok := a.(*ssa.Slice); ok {
+							if al, ok := sl.X.(*ssa.Alloc); ok {
+								for _, ref := range *al.Referrers() {
+									if ia, ok := ref.(*ssa.IndexAddr); ok {
+										for _, r2 := range *ia.Referrers() {
+											if st, ok := r2.(*ssa.Store); ok && recvOf(st.Val) {
+												viaRecv = true
+											}
+										}
+									}
+								}
+							}
+						}
+					}
+					if ub != nil && ub.Kind() == types.String && viaRecv {
+						c.Bad("C07.valuetext", key, ret.Pos(), "the text of a string-kind value is passed through "+name+" before it is handed to the parser: the token is substituted after lexing, so quotes or escapes added here end up inside the name or string itself")
+					} else {
+						c.Unk("C07.valuetext", key, ret.Pos(), "rendered by a function this rule has no exactness argument for")
+					}
 				}
 			default:
 				c.Unk("C07.valuetext", key, ret.Pos(), "a form of result this rule does not classify")
